@@ -27,6 +27,10 @@ structure Cfg where
   sticky : Bool                -- `enable_sticky`
   stickyTtl : Int              -- `int(sticky_default_ttl)` (the header is "integer seconds")
   stickyEcho : List (List Char)  -- `sticky_echo_headers.keys()` (`[]` for `None` / empty)
+  /-- NOT a capability: authentication depends on headers a proxy injects (`proxy_auth_headers`, an authenticator that
+      declares them, or `proxy_proof_required`), i.e. `proxy_hint` is non-empty.  Present so that a configuration with it and
+      without `proofRequired` is expressible: no capability header may depend on it. -/
+  proxyHint : Bool := false
 deriving Repr
 
 /-- `HttpServerCapabilities` without `cache_expires_at` (a clock reading) -/
